@@ -6,6 +6,7 @@ def run(chk):
     fn, n = cc.strings(chk, chk.tier)
     chk.traces += n
     cc.replay(chk, fn, only={"verdict", "not_canonical", "encoded_len", "panic"})
+    cc.aggparam(chk)
     chk.exhaustive = False
     chk.explanation = (
         "TLC enumerates, for every message type and decoding parameter (integers, seeds, all 8 fields, length-prefixed vectors, Prio3 public/input/verifier "
@@ -14,7 +15,7 @@ def run(chk):
         "message, Prio2 share/state/verifier share/output, ping-pong message), honest-shaped strings in two value patterns (incl. p-1 elements) and one deviation "
         "at a time: element = p, p+1 or all-ones at first/middle/last position, unknown tags, length prefixes too big / off by one / all-ones / not a multiple of "
         "the item size, non-zero padding bits, counts too large, truncations, extensions, empty input. The verdict comes from the total decoder Codec!Dec; the real "
-        "decoder must agree, re-encode every accepted string to itself and advertise exactly its length. Aggregation parameters: see C20.")
+        "decoder must agree, re-encode every accepted string to itself and advertise exactly its length. Aggregation parameters: the AggParam.tla constructor/decoder enumeration (every list of <= 3 prefixes, every single-bit flip incl. every padding bit, header extremes) is replayed here too.")
     chk.assumptions = ["values inside opaque payloads are arbitrary bytes", "decoding parameters with bits >= 1 (Poplar1::new is infallible and does not reject 0)"]
 
 
